@@ -561,7 +561,7 @@ inductive BCond where
   | not (c : BCond)
   | and (a b : BCond)
   | or (a b : BCond)
-  | paramsMatch                -- `all(p in trial.params and trial.params[p] == v for p, v in params.items())`
+  | paramsMatch                -- `all(p in trial.params and _param_value_equal(trial.params[p], v) for p, v in params.items())` (NaN-aware: C14Gen.interp_paramValueEqual)
   | leafIsNone                 -- `leaf is None`
   | trialFinished              -- `trial.state.is_finished()`
   | trialStateIs (s : TState)  -- `trial.state == TrialState.<S>`
